@@ -187,6 +187,11 @@ func NewBlockChain(ctx context.Context, db aquadb.Database, cacheConfig *CacheCo
 	if bc.genesisBlock == nil {
 		return nil, ErrNoGenesis
 	}
+	// Initialise the head markers with typed nils so that the recovery paths of
+	// loadLastState (Reset -> SetHead) can read them before any head is known.
+	var nilBlock *types.Block
+	bc.currentBlock.Store(nilBlock)
+	bc.currentFastBlock.Store(nilBlock)
 	if err := bc.loadLastState(); err != nil {
 		return nil, err
 	}
